@@ -33,6 +33,8 @@ from .values import (
     PyVal,
     SBool,
     SBytes,
+    BCat,
+    is_abstract_bytes,
     SInt,
     SStr,
     StubModule,
@@ -662,6 +664,10 @@ class Interp:
 
     def binop(self, opnode, a, b):
         name, native, meth, rmeth = BINOPS[type(opnode)]
+        if name == "Add":
+            ua, ub = self.unbase(a), self.unbase(b)
+            if (is_abstract_bytes(ua) or is_abstract_bytes(ub)) and all(is_abstract_bytes(x) or isinstance(x, (bytes, bytearray)) for x in (ua, ub)):
+                return BCat([ua, ub])  # concatenation of byte strings, at least one of them abstract
         if self.concrete(a) and self.concrete(b):
             try:
                 return native(a, b)
@@ -1137,6 +1143,13 @@ class Interp:
 
     def call_native(self, fn, args, kwargs):
         allv = args + list(kwargs.values())
+        if isinstance(getattr(fn, "__self__", None), (bytes, bytearray)) and getattr(fn, "__name__", "") == "join" and len(args) == 1 and not kwargs:
+            items = [self.unbase(x) for x in self.iterate(args[0])]
+            if any(is_abstract_bytes(x) for x in items) and all(is_abstract_bytes(x) or isinstance(x, (bytes, bytearray)) for x in items):
+                parts = []
+                for i, x in enumerate(items):
+                    parts += ([bytes(fn.__self__)] if i else []) + [x]
+                return BCat(parts)
         if isinstance(fn, (types.WrapperDescriptorType, types.MethodDescriptorType)) and args and isinstance(args[0], PObj) and args[0].has_base:
             args = [args[0].base] + args[1:]
             allv = args + list(kwargs.values())
